@@ -267,6 +267,11 @@ def stepSourceOp (d : DState) (op : String) (toks impl : List String) : Option (
     -- descriptor, same operation log
     let i ← d.getSrc (← a.toNat?)
     some (report ((d.putSrc (← b.toNat?) i).flag "src.clone") op { model := "ok", impl := implS, kind := i.top })
+  | ["sclonefrom", a, b] => do
+    -- `a.clone_from(&b)`: afterwards `a` is a source in the state `b` is in
+    let i ← d.getSrc (← b.toNat?)
+    let _ ← d.getSrc (← a.toNat?)
+    some (report ((d.putSrc (← a.toNat?) i).flag "src.clone-from") op { model := "ok", impl := implS, kind := i.top })
   | ["ssame", a, b, clause] => do
     -- two sources pulled in lockstep (a wrapper and the bare source): their most recent answers agree
     let ia ← d.getSrc (← a.toNat?)
@@ -386,6 +391,16 @@ def stepSinkOp (d : DState) (op : String) (toks impl : List String) : Option (DS
       | some e, some y => [clauseEq "C11.running" e y]
       | _, _ => []
     some (report d op { model := renderOut (some r.2), impl := implS, kind := i.kind, clauses := cl })
+  | ["kagree", _, _, clause] =>
+    -- "the combined statistics sink agrees with the individual ones": its mean and variance (the last two of its four
+    -- values) against the mean-variance sink fed the same samples — a differential inside the implementation
+    let halves := implS.splitOn " | "
+    let toksOf (s : String) : List String := (s.splitOn " ").filter (· != "")
+    let (l, r) := (toksOf (halves.headD ""), toksOf ((halves.drop 1).headD ""))
+    let e := " ".intercalate r
+    let got := " ".intercalate (l.drop (l.length - r.length))
+    let cl : List Clause := [{ name := clause, ok := l.length ≥ r.length && got == e, expected := e }]
+    some (report (d.flag "sink.agree") op { model := implS, impl := implS, kind := "sink", clauses := cl })
   | ["kclone", a, b] => do
     -- a copy of a sink is the sink its source is (same samples received)
     let i ← d.getSink (← a.toNat?)
@@ -649,11 +664,16 @@ def stepPipeOp (d : DState) (op : String) (toks impl : List String) : Option (DS
   | ["pclone", a, b] => do
     -- a copy of a pipe is a pipe of copies of all its stages: same stages, same history
     let p ← d.getPipe (← a.toNat?)
-    some (report ((d.putPipe (← b.toNat?) p).flag "pipe.clone") op { model := "ok", impl := implS, kind := "pipe" })
+    -- ... each made by that stage's own `Clone` (the harness's stages count their clones)
+    let e := s!"clones={p.leaves.length}"
+    let cl : List Clause := [{ name := "C01.copy-clones-every-stage", ok := e == implS, expected := e }]
+    some (report ((d.putPipe (← b.toNat?) p).flag "pipe.clone") op { model := e, impl := implS, kind := "pipe", clauses := cl })
   | ["pclonefrom", a, b] => do
     -- `a.clone_from(&b)`: afterwards `a` is a copy of `b`
     let p ← d.getPipe (← b.toNat?)
-    some (report ((d.putPipe (← a.toNat?) p).flag "pipe.clone-from") op { model := "ok", impl := implS, kind := "pipe" })
+    let e := s!"clones={p.leaves.length}"
+    let cl : List Clause := [{ name := "C01.copy-clones-every-stage", ok := e == implS, expected := e }]
+    some (report ((d.putPipe (← a.toNat?) p).flag "pipe.clone-from") op { model := e, impl := implS, kind := "pipe", clauses := cl })
   | ["ppull", id] => do
     -- Source::source on a pipe whose first stage is a source
     let id ← id.toNat?
